@@ -498,7 +498,7 @@ def mutate(rng, toks):
     return out.strip()
 
 
-PLUS_MINUS_CAP = 12
+PLUS_MINUS_CAP = 4
 HAND = ["a+-b", "--a", "a--b", "a-+b", "+a", "a+", "a**", "**a", "a*/b", "(a", "a)", "()", "", " ", "a b", "2 3", "sin", "sin()", "sin(,)", "max(a)",
         "max(a,b,c)", "power<>(a)", "power<2>", "power<2>(a", "power<a>(b)", "Cste::", "Cste::Z", "::R", "a?b:c", "a<b?1", "a<b?1:", "a<b?:2", "?1:2",
         "a<b<c?1:2", "a<b?1:c<d?2:3", "1e", "1e+", "1.2.3", "2x", "x2", "a+-b*c", "-a+-b", "a*-b", "a/-b", "a**-b", "a+-(b)", "(a)+-b", "sin(a+-b)",
@@ -702,19 +702,19 @@ def run(ctx):
                        "case = 1-3 token mutations (drop, duplicate, swap, replace, insert, stray '-', parenthesis) of a well-formed formula, "
                        "plus a fixed list of hand-written malformed formulas")
     nshards = vfcore.NCPU
-    nv = ctx.n(16000, 800000)
-    nr = ctx.n(40000, 2000000)
+    nv = ctx.n(8000, 300000)
+    nr = ctx.n(20000, 800000)
     with cf.ProcessPoolExecutor(nshards) as ex:
         vouts = list(ex.map(value_shard, [(ctx.seed, i, (nv + nshards - 1) // nshards, str(b), str(ctx.work), csts) for i in range(nshards)]))
         routs = list(ex.map(reject_shard, [(ctx.seed, i, (nr + nshards - 1) // nshards, str(b), str(ctx.work), csts) for i in range(nshards)]))
     vs = fold(ctx, vouts, "value_half")
     cxx_items = [it for o in vouts for it in o["cxx"]]
     if not ctx.thorough:
-        # the compile cost is bounded in the quick tier: 3000 formulas of the main stratum + all of the one-feature strata
-        main = [it for it in cxx_items if it["stratum"] == "cxx"][:3000]
+        # the compile cost is bounded in the quick tier: 2000 formulas of the main stratum + all of the one-feature strata
+        main = [it for it in cxx_items if it["stratum"] == "cxx"][:2000]
         cxx_items = main + [it for it in cxx_items if it["stratum"] != "cxx"]
     else:
-        main = [it for it in cxx_items if it["stratum"] == "cxx"][:60000]
+        main = [it for it in cxx_items if it["stratum"] == "cxx"][:30000]
         cxx_items = main + [it for it in cxx_items if it["stratum"] != "cxx"]
     cs = judge_cxx(ctx, cxx_items)
     rs = fold(ctx, routs, "rejection_half")
